@@ -37,6 +37,7 @@ P19P = os.path.join(LEAN, "EG", "Props", "C19", "GeneratedPolyline.lean")
 P05 = os.path.join(LEAN, "EG", "Props", "C05", "GeneratedTriangle.lean")
 TRI = "src/primitives/triangle/mod.rs"
 SIT = "src/primitives/triangle/scanline_iterator.rs"
+SIX = "src/primitives/triangle/scanline_intersections.rs"
 TPT = "src/primitives/triangle/points.rs"
 PL = "src/primitives/polyline/mod.rs"
 PPT = "src/primitives/polyline/points.rs"
@@ -61,6 +62,24 @@ CASES = [
      [("let triangle = triangle.sorted_clockwise();", "let triangle = triangle.sorted_yx();")], ["ScanlineIterator_new_src_eq_model"]),
     ("ScanlineIterator::next: the intersections are not reset for the new row", "mutation", SIT,
      [("            self.intersections.reset_with_new_scanline(self.scanline_y);\n", "")], ["ScanlineIterator_next_src_eq_model"]),
+    ("ScanlineIntersections::new: collapsed for every stroke offset but `Right`", "mutation", SIX,
+     [("            && stroke_offset == StrokeOffset::Right;", "            && stroke_offset != StrokeOffset::Right;")], ["ScanlineIntersections_new_src_eq_model"]),
+    ("ScanlineIntersections::new: `has_fill` not stored", "mutation", SIX,
+     [("        let mut self_ = Self {\n            has_fill,\n", "        let mut self_ = Self {\n")], ["ScanlineIntersections_new_src_eq_model"]),
+    ("generate_lines: fill between the OUTER ends of the two stroke pieces", "mutation", SIX,
+     [("let start_x = first.x.end.min(second.x.end);", "let start_x = first.x.start.min(second.x.start);")], ["ScanlineIntersections_generate_lines_src_eq_model"]),
+    ("generate_lines: no fill without stroke intersections", "mutation", SIX,
+     [("(None, None) => self.triangle.scanline_intersection(scanline_y),", "(None, None) => Scanline::new_empty(scanline_y),")],
+     ["ScanlineIntersections_generate_lines_src_eq_model"]),
+    ("generate_lines: the fill line is typed `Stroke`", "mutation", SIX,
+     [("                internal,\n                internal_type: PointType::Fill,", "                internal,\n                internal_type: PointType::Stroke,")],
+     ["ScanlineIntersections_generate_lines_src_eq_model"]),
+    ("ScanlineIntersections::next: first stroke piece before the fill", "mutation", SIX,
+     [("if let Some(internal) = self.lines.internal.try_take() {\n            Some((internal, self.lines.internal_type))\n        } else if let Some(first) = self.lines.first.try_take() {\n            Some((first, PointType::Stroke))",
+       "if let Some(first) = self.lines.first.try_take() {\n            Some((first, PointType::Stroke))\n        } else if let Some(internal) = self.lines.internal.try_take() {\n            Some((internal, self.lines.internal_type))")],
+     ["ScanlineIntersections_next_src_eq_model"]),
+    ("ScanlineIntersections::next: the second stroke piece is typed `Fill`", "mutation", SIX,
+     [("Some((second, PointType::Stroke))", "Some((second, PointType::Fill))")], ["ScanlineIntersections_next_src_eq_model"]),
     ("triangle Points::new: `has_fill = false`", "mutation", TPT,
      [("            StrokeOffset::None,\n            true,", "            StrokeOffset::None,\n            false,")], ["TriPoints_new_src_eq_model"]),
     ("triangle Points::next: first point of a new line dropped", "mutation", TPT,
@@ -109,6 +128,9 @@ CASES = [
     ("scanline_intersection: early `return scanline;` written as `if / else`", "harmless", TRI,
      [("            scanline.bresenham_intersection(&Line::new(p1, p3));\n\n            return scanline;\n        }\n\n        scanline.bresenham_intersection(&Line::new(p1, p2));\n        scanline.bresenham_intersection(&Line::new(p1, p3));\n        scanline.bresenham_intersection(&Line::new(p2, p3));\n",
        "            scanline.bresenham_intersection(&Line::new(p1, p3));\n        } else {\n            scanline.bresenham_intersection(&Line::new(p1, p2));\n            scanline.bresenham_intersection(&Line::new(p1, p3));\n            scanline.bresenham_intersection(&Line::new(p2, p3));\n        }\n")], []),
+    ("generate_lines: locals `start_x` / `end_x` inlined into the struct literal", "harmless", SIX,
+     [("                        let start_x = first.x.end.min(second.x.end);\n                        let end_x = first.x.start.max(second.x.start);\n", ""),
+      ("                            x: start_x..end_x,", "                            x: first.x.end.min(second.x.end)..first.x.start.max(second.x.start),")], []),
     # constructs outside the subset
     ("a `for` loop in sorted_yx", "unknown", TRI,
      [("        Self::new(y1, y2, y3)\n", "        for _i in 0..1 {}\n        Self::new(y1, y2, y3)\n")], []),
